@@ -1,23 +1,29 @@
 //! Verification stand-in for bloomfilter 1.0.9 (API subset used by tinylfu-cached's DoorKeeper).
 //! ASSUMED contract of the dependency, given executably: no false negatives; `check` of an item
-//! never `set` answers false unless it is the (harness-chosen) `false_positive_for` item;
-//! `clear` forgets every item.
+//! never `set` answers false unless it is the (harness-chosen) false-positive item; `clear`
+//! forgets every item.  Four slots, no heap; a fifth distinct item panics.
 use std::marker::PhantomData;
-pub struct Bloom<T: ?Sized> { items: Vec<u64>, pub false_positive_for: Option<u64>, _t: PhantomData<T> }
+pub struct Bloom<T: ?Sized> { items: [Option<u64>; 4], false_positive_for: Option<u64>, _t: PhantomData<T> }
 pub trait AsU64 { fn as_u64(&self) -> u64; }
 impl AsU64 for u64 { fn as_u64(&self) -> u64 { *self } }
 impl<T: AsU64 + ?Sized> Bloom<T> {
     pub fn new_for_fp_rate(items_count: usize, _fp_p: f64) -> Self {
         assert!(items_count > 0);
-        Bloom { items: Vec::new(), false_positive_for: None, _t: PhantomData }
+        Bloom { items: [None; 4], false_positive_for: None, _t: PhantomData }
     }
+    /// verification-only: choose one item for which `check` answers true although it was never set
+    pub fn verif_set_false_positive(&mut self, v: Option<u64>) { self.false_positive_for = v; }
     fn has(&self, v: u64) -> bool {
-        let mut i = 0;
-        while i < self.items.len() { if self.items[i] == v { return true; } i += 1; }
-        false
+        self.items[0] == Some(v) || self.items[1] == Some(v) || self.items[2] == Some(v) || self.items[3] == Some(v)
     }
-    pub fn set(&mut self, item: &T) { let v = item.as_u64(); if !self.has(v) { self.items.push(v); } }
+    pub fn set(&mut self, item: &T) {
+        let v = item.as_u64();
+        if self.has(v) { return; }
+        let mut i = 0;
+        while i < 4 { if self.items[i].is_none() { self.items[i] = Some(v); return; } i += 1; }
+        panic!("bloomfilter stand-in capacity exceeded");
+    }
     pub fn check(&self, item: &T) -> bool { let v = item.as_u64(); self.has(v) || self.false_positive_for == Some(v) }
-    pub fn clear(&mut self) { self.items.clear(); }
-    pub fn number_of_items(&self) -> usize { self.items.len() }
+    pub fn clear(&mut self) { self.items = [None; 4]; self.false_positive_for = None; }   // a cleared filter has no bit set: no positives at all
+    pub fn number_of_items(&self) -> usize { self.items.iter().filter(|x| x.is_some()).count() }
 }
